@@ -284,8 +284,8 @@ def cases():
     for j, (l1, l2) in enumerate([pairs[1], pairs[len(pairs) // 2], pairs[-1]]):
         out.append({'label': '3box/lev-prefix%d' % j, 'mesh': m3, 'fields1': F1[j % 3], 'fields2': F2[j % 3], 'layout1': [l1], 'layout2': [l2], 'geom': j % 3,
                     'prefix1': ['Lev_', 'Level_', 'L'][j], 'prefix2': ['Lev_', 'amr_', 'Level_'][j], 'full': j == 0})
-    for r in range(4 if tier == 'quick' else 150):
-        m = families.random_mesh(rnd, 3, max_levels=2, max_boxes=4, max_extent=4)
+    for r in range(4 if tier == 'quick' else 500):
+        m = families.random_mesh(rnd, 3, max_levels=2 if tier == 'quick' else 3, max_boxes=4 if tier == 'quick' else 6, max_extent=4 if tier == 'quick' else 6)
         m.name = 'rand%d-3d' % r
         out.append({'label': m.name, 'mesh': m, 'fields1': F1[r % 3], 'fields2': F2[r % 3], 'layout1': families.scatter_layouts(m, rnd, 3),
                     'layout2': families.scatter_layouts(m, rnd, 3), 'geom': r % 3, 'mismatch': True})
